@@ -187,6 +187,9 @@ def check_case(case, V, dask, chk, catalog, setters=True):
             out.append(("copy:%s:container" % name, "%s did not return a Dask-backed signal" % name))
         if name in ("compute", "to_dask.compute") and not isinstance(c2.data, np.ndarray):
             out.append(("copy:%s:container" % name, "%s did not return a NumPy-backed signal" % name))
+    # a zoo of library operations on the object: whatever they return must satisfy the contract
+    if setters:
+        out += zoo(s, desc)
     # assignment: every kind of every settable attribute
     for f, attr in () if not setters else (("rate", "sample_rate"), ("start", "start_time"), ("meta", "meta"), ("cf", "center_freq"),
                     ("cbw", "chan_bw"), ("align", "freq_align"), ("pol", "pol_type")):
@@ -215,6 +218,45 @@ def check_case(case, V, dask, chk, catalog, setters=True):
                 if cb and verdict != "err":
                     out.append(("assign:%s:contract" % attr, "after %s.%s = <%s>: %s" % (a["cls"], attr, k, cb)))
     return out, True
+
+
+def zoo(s, desc):
+    """Elementwise / conversion / transform operations on a valid object: every Signal they return must
+    satisfy its class contract (exceptions are refusals and fine)."""
+    import common
+    from common import pb, u
+    out = []
+    ops = [("np.abs", lambda z: np.abs(z)), ("np.isfinite", lambda z: np.isfinite(z)), ("z > 0", lambda z: z > 0),
+           ("z == z", lambda z: z == z), ("np.real", lambda z: np.real(z.data) if False else np.negative(z)),
+           ("np.angle-like arctan2", lambda z: np.arctan2(z, z)), ("z * 2", lambda z: z * 2), ("z * 2j", lambda z: z * 2j),
+           ("z / 3", lambda z: z / 3), ("z // 2", lambda z: z // 2), ("np.sqrt", lambda z: np.sqrt(z)),
+           ("np.conj", lambda z: np.conj(z)), ("np.floor", lambda z: np.floor(z)), ("np.modf", lambda z: np.modf(z)),
+           ("z.astype-like positive", lambda z: np.positive(z)), ("np.signbit", lambda z: np.signbit(z)),
+           ("z[1:2]", lambda z: z[1:2]), ("z[::2]", lambda z: z[::2]), ("z[::3, :1]", lambda z: z[::3, :1]),
+           ("time_shift", lambda z: pb.time_shift(z, 0.5)), ("time_shift crop", lambda z: pb.time_shift(z, -1.5, crop=True)),
+           ("snippet", lambda z: pb.snippet(z, 0.5, 1)), ("fast_len", lambda z: pb.fast_len(z)),
+           ("concatenate", lambda z: pb.concatenate([z, type(z).like(z, start_time=None)])),
+           ("freq_shift", lambda z: pb.freq_shift(z, 1 * u.kHz)),
+           ("coherent_dd", lambda z: pb.coherent_dedispersion(z, pb.DM(1e-6))),
+           ("incoherent_dd", lambda z: pb.incoherent_dedispersion(z, pb.DM(1e-6))),
+           ("to_intensity", lambda z: z.to_intensity()), ("to_stokes", lambda z: z.to_stokes()),
+           ("to_circular", lambda z: z.to_circular()), ("to_linear", lambda z: z.to_circular().to_linear()),
+           ("stokes Q", lambda z: z["Q"]), ("stft", lambda z: pb.contrib.stft(z, nperseg=1)),
+           ("stft3", lambda z: pb.contrib.stft(z, nperseg=3)),
+           ("istft", lambda z: pb.contrib.istft(pb.contrib.stft(z, nperseg=3), nperseg=3)),
+           ("like rate", lambda z: type(z).like(z, sample_rate=z.sample_rate / 4))]
+    for name, f in ops:
+        try:
+            r = f(s)
+        except Exception:
+            continue
+        for x in (r if isinstance(r, tuple) else (r,)):
+            if isinstance(x, pb.Signal):
+                bad = common.contract(x)
+                if bad:
+                    out.append(("operation:%s:contract" % name, "%s applied to %s returned %r violating the contract: %s"
+                                % (name, desc, x, bad)))
+    return out
 
 
 def load_cases(path):
